@@ -1683,7 +1683,7 @@ class C01(fw.Check):
         cyc = [c for c in (gen_cyclic(rng, rng.choice([4, 5, 6, 8, 10])) for _ in range(self.n(60, 600))) if c]
         self._cyclic_batch(CYCLIC + cyc)
         specs = []
-        for _ in range(self.n(1500, 15000)):
+        for _ in range(self.n(1500, 9000)):
             hi = 12 if self.quick else 25
             size = rng.choice([2, 3, 3, 4, 5, 6, 8, 10, hi])
             spec = gen_bounded(rng, size)
